@@ -34,11 +34,12 @@ type c09Env struct {
 }
 
 type c09Plan struct {
-	Spec   engine.Spec   `json:"spec"`
-	Env    c09Env        `json:"env"`
-	Faults []simrt.Fault `json:"faults,omitempty"`
-	Rerun  bool          `json:"rerun,omitempty"` // after the faulted run, run again fault-free in the same directory
-	Class  string        `json:"fault_class,omitempty"`
+	Spec      engine.Spec   `json:"spec"`
+	Env       c09Env        `json:"env"`
+	Faults    []simrt.Fault `json:"faults,omitempty"`
+	FullAfter int64         `json:"full_after,omitempty"` // the disk is full after this many bytes written
+	Rerun     bool          `json:"rerun,omitempty"`      // after the faulted run, run again fault-free in the same directory
+	Class     string        `json:"fault_class,omitempty"`
 }
 
 type c09Case struct {
@@ -242,8 +243,12 @@ func (st *c09State) prepare(w *engine.Worker, cs *c09Case) error {
 }
 
 func (st *c09State) exec(w *engine.Worker, cs *c09Case, faults []simrt.Fault, keep bool) (*engine.Result, error) {
+	return st.execFull(w, cs, faults, 0, keep)
+}
+
+func (st *c09State) execFull(w *engine.Worker, cs *c09Case, faults []simrt.Fault, fullAfter int64, keep bool) (*engine.Result, error) {
 	s := cs.spec
-	p := simrt.Plan{Map: simrt.MapPlan{Policy: "identity"}, Clock: 1700000000, Pid: 4242, TickBudget: c09TickBudget, Faults: faults}
+	p := simrt.Plan{Map: simrt.MapPlan{Policy: "identity"}, Clock: 1700000000, Pid: 4242, TickBudget: c09TickBudget, Faults: faults, FullAfter: fullAfter}
 	s.Plan = &p
 	if !keep {
 		if err := st.prepare(w, cs); err != nil {
@@ -433,7 +438,7 @@ func RunC09(c *Ctx) error {
 			continue
 		}
 		seenTree[h] = true
-		if c.Tier == "quick" && len(seenTree)%4 != 1 && !strings.HasPrefix(cs.gc.ID, "awk-") && len(cs.flags) > len(cs.gc.NeedFlags) {
+		if c.Tier == "quick" && len(seenTree)%8 != 1 && !(strings.HasPrefix(cs.gc.ID, "awk-") && len(seenTree)%2 == 0) && len(cs.flags) > len(cs.gc.NeedFlags) {
 			continue // quick: every fourth distinct tree, and every hostile-spelling grammar
 		}
 		cjobs = append(cjobs, &cjob{cs: cs})
@@ -467,7 +472,7 @@ func RunC09(c *Ctx) error {
 			continue
 		}
 		// quick: a subset of configurations gets the full enumeration
-		if c.Tier == "quick" && !(ci%17 == 0 || (cs.gc.ID == "calc" || cs.gc.ID == "lexonly") && len(cs.flags) <= 1) {
+		if c.Tier == "quick" && !(ci%29 == 0 || (cs.gc.ID == "calc" || cs.gc.ID == "lexonly") && len(cs.flags) <= 1) {
 			continue
 		}
 		if c.Tier == "thorough" && cs.gc.IR == nil && ci%3 != 0 {
@@ -491,6 +496,18 @@ func RunC09(c *Ctx) error {
 			}
 			if out {
 				mk(simrt.Fault{Op: op.N, Kind: []string{"crash_before", "crash_after"}[rr.Intn(2)]}, true)
+			}
+		}
+		// the disk fills up after n bytes (every later write fails), then space is freed and gocc is run again
+		var total int64
+		for _, op := range cs.ref.Ops {
+			if op.Call == "WriteFile" || op.Call == "Write" {
+				total += int64(op.Size)
+			}
+		}
+		if total > 4 {
+			for _, fa := range []int64{1, total / 4, total / 2, total - 1, 1 + int64(rr.Intn(int(total)-1)), 1 + int64(rr.Intn(int(total)-1))} {
+				jobs = append(jobs, &c09Job{cs: cs, output: true, plan: c09Plan{Spec: cs.spec, Env: cs.env, FullAfter: fa, Rerun: true, Class: "output-path"}})
 			}
 		}
 		// sampled double faults
@@ -531,7 +548,7 @@ func RunC09(c *Ctx) error {
 	c.Logf("%d configurations under fault enumeration, %d faulted runs planned", faultCfgs, len(jobs))
 	err = c.ParallelDo(len(jobs), func(w, i int) error {
 		j := jobs[i]
-		res, err := st.exec(st.workers[w], j.cs, j.plan.Faults, false)
+		res, err := st.execFull(st.workers[w], j.cs, j.plan.Faults, j.plan.FullAfter, false)
 		if err != nil {
 			return err
 		}
@@ -563,8 +580,17 @@ func RunC09(c *Ctx) error {
 			fired["stale-dir:"+j.cs.env.Pre]++
 			firedAny = true
 		}
+		if j.plan.FullAfter > 0 {
+			for _, l := range j.res.LogLines {
+				if strings.HasPrefix(l, "disk-full") {
+					fired["disk-full"]++
+					firedAny = true
+					break
+				}
+			}
+		}
 		if firedAny {
-			distinct[j.cs.key()+"|"+fmt.Sprint(j.plan.Faults)+"|"+j.cs.env.Pre] = true
+			distinct[j.cs.key()+"|"+fmt.Sprint(j.plan.Faults, j.plan.FullAfter)+"|"+j.cs.env.Pre] = true
 		}
 		if j.res.Exit == 0 {
 			exit0UnderFault++
@@ -695,6 +721,9 @@ func RunC09(c *Ctx) error {
 func c09Judge(c *Ctx, st *c09State, cs *c09Case, plan c09Plan, res *engine.Result, ref *engine.Result, outputFault bool, what string) {
 	key := map[string]string{"grammar": cs.gc.ID}
 	desc := fmt.Sprintf("%s %v env=%+v faults=%v", cs.gc.ID, cs.flags, cs.env, plan.Faults)
+	if plan.FullAfter > 0 {
+		desc += fmt.Sprintf(" disk full after %d bytes", plan.FullAfter)
+	}
 	if res.TimedOut || res.Exit == simrt.ExitTickBudget {
 		c.Report(&Violation{Class: "non-termination", Key: key, Detail: desc + fmt.Sprintf(": did not terminate within %d ticks / the wall watchdog (ticks so far %d)", int64(c09TickBudget), res.Ticks), Plan: plan})
 		return
@@ -784,7 +813,7 @@ func c09Replay(c *Ctx, st *c09State) error {
 		return Harnessf("%v", err)
 	}
 	cs.ref = ref
-	res, err := st.exec(w, cs, v.Plan.Faults, false)
+	res, err := st.execFull(w, cs, v.Plan.Faults, v.Plan.FullAfter, false)
 	if err != nil {
 		return Harnessf("%v", err)
 	}
